@@ -32,6 +32,21 @@ func bvLit(v uint64, w int) string {
 }
 
 func app(op string, args ...string) string {
+	// constant folding of 64-bit add/sub (keeps literal slice lengths literal)
+	if len(args) == 2 && (op == "bvadd" || op == "bvsub") && len(args[0]) == 18 && len(args[1]) == 18 && strings.HasPrefix(args[0], "#x") && strings.HasPrefix(args[1], "#x") {
+		var a, b uint64
+		if _, err := fmt.Sscanf(args[0][2:], "%x", &a); err == nil {
+			if _, err := fmt.Sscanf(args[1][2:], "%x", &b); err == nil {
+				if op == "bvadd" {
+					return bvLit(a+b, 64)
+				}
+				return bvLit(a-b, 64)
+			}
+		}
+	}
+	if len(args) == 2 && op == "bvadd" && args[1] == "#x0000000000000000" {
+		return args[0]
+	}
 	return "(" + op + " " + strings.Join(args, " ") + ")"
 }
 
